@@ -1019,7 +1019,8 @@ def extrapolated_unit(an, cls, method, order, elem, dirs, hcols, k_est, ratio, w
     """min(U_basic, U_x): U_basic = unit of the documented leading order p over the k_est largest steps;
     U_x = unit of order p + s*t over the k_est - t windows (head h_i, tail h_{i+t}) times sum |Richardson
     weights|, t = min(terms, k_est - 1).  hcols: list of step sequences (one per coordinate in dirs), each sorted
-    descending.  Returns (U, which, t) or None."""
+    descending.  Returns (U, which, t, T, R) with U = T + R (truncation and rounding parts at the minimising
+    window, both including the weight sums) or None."""
     s_doc, p_doc = documented_orders(cls, method, order)
     cols = [np.sort(np.asarray(c, dtype=float))[::-1] for c in hcols]
     hs = cols[0] if len(cols) == 1 else np.sqrt(cols[0] * cols[1])
@@ -1035,5 +1036,5 @@ def extrapolated_unit(an, cls, method, order, elem, dirs, hcols, k_est, ratio, w
     if ub is None and ux is None:
         return None
     if ux is not None and (ub is None or ux[0] < ub[0]):
-        return ux[0], 'extrapolated', t
-    return ub[0], 'basic', t
+        return ux[0], 'extrapolated', t, ux[1], ux[2]
+    return ub[0], 'basic', t, ub[1], ub[2]
